@@ -117,6 +117,8 @@ def plan_seq(pid, tier, seed, ncpu):
         for (p, s) in profiles:
             n = max(1, (ncpu * s) // shares)
             js += seq_jobs(bindirs["dbg"], workdir, known, pid, p, total * s // shares, ops, seed, n)
+        # long histories (200-400 ops): reach the 64-op flush points of the read / write logs without sync()
+        js += seq_jobs(bindirs["dbg"], workdir, known, pid, profiles[0][0], max(200, total // 40), 400, seed, 2, prefix="long")
         if pid in ("C05", "C06"):
             # more expired entries pending than one maintenance batch (100 / 500) purges
             js += seq_jobs(bindirs["dbg"], workdir, known, pid, "bulk", scale(tier, 240, 6000), 1300, seed, 4, prefix="bulk")
